@@ -23,7 +23,7 @@ REQUIRED_REACH = ['_tt_base:TT.__add__', '_tt_base:TT.__sub__', '_tt_base:TT.__r
                   '_tt_base:TT.__pow__', '_tt_base:TT.__rpow__', '_extras:kron', '_tt_base:TT.full', '_tt_base:TT.__neg__', '_tt_base:TT.__pos__',
                   '_extras:ones', '_extras:zeros', '_extras:eye', '_extras:meshgrid', '_extras:rank1TT', '_tt_base:TT.__radd__', '_tt_base:TT.__rmul__']
 LINE_FUNCS = ['TT.__add__', 'TT.__sub__', 'TT.__rsub__', 'TT.__mul__', 'TT.__truediv__', 'TT.__pow__', 'TT.full', 'kron']
-REQUIRED_COUNTS = {'branch:add-equal': 1, 'branch:add-broadcast': 1, 'branch:add-scalar': 1, 'branch:sub-equal': 1, 'branch:sub-broadcast': 1,
+REQUIRED_COUNTS = {'history_value_checks': 200, 'branch:add-equal': 1, 'branch:add-broadcast': 1, 'branch:add-scalar': 1, 'branch:sub-equal': 1, 'branch:sub-broadcast': 1,
                    'branch:sub-scalar': 1, 'branch:mul-equal': 1, 'branch:mul-broadcast': 1, 'branch:mul-scalar': 1, 'branch:mul-zero-scalar': 1,
                    'branch:div-scalar': 1, 'exact_comparisons': 100}
 CASE_TIMEOUT = {'quick': 60, 'thorough': 60}
@@ -134,6 +134,8 @@ def cases(tier, seed):
         cs.append({'gen': 'factory', 'which': ['ones', 'zeros', 'eye', 'rank1TT', 'meshgrid', 'ones_ttm', 'zeros_ttm', 'rank1TTM'][i % 8],
                    'N': gens.modes(rng, d, (1, 2, 3, 4), distinct=False), 'M': gens.modes(rng, d, (1, 2, 3), distinct=False),
                    'dtype': ['f64', 'f32', 'c128'][i % 3]})
+    from .. import hist
+    cs += hist.cases(PROP, tier, seed)
     return cs
 
 
@@ -158,6 +160,11 @@ def scalar_ref(kind, s=None):
 def run_case(case, ctx):
     g = gens.tgen(case['seed'])
     globals()['run_' + case['gen']](case, ctx, g)
+
+
+def run_hist(case, ctx, g):
+    from .. import hist
+    hist.run(PROP, case, ctx)
 
 
 def run_binop(case, ctx, g):
